@@ -124,6 +124,8 @@ macro_rules! sync_harness {
         #[kani::stub(alloc::fmt::format, crate::kani_support::stubs::fmt_format)]
         #[kani::stub(core::fmt::write, crate::kani_support::stubs::fmt_write)]
         #[kani::stub(<core::io::CustomOwner as core::ops::Drop>::drop, crate::kani_support::stubs::custom_owner_drop)]
+        #[kani::stub(<std::io::Error as core::fmt::Display>::fmt, crate::kani_support::stubs::io_error_display)]
+        #[kani::stub(<std::io::Error as core::fmt::Debug>::fmt, crate::kani_support::stubs::io_error_display)]
         #[kani::stub(std::fs::File::sync_data, crate::kani_support::stubs::file_sync_data)]
         fn $name() {
             sync_unit($n, $maxf);
